@@ -1093,4 +1093,357 @@ fn op_derive(w: &[&str], cx: &mut Cx) -> Option<String> {
     Some(format!("ok paths={}", paths))
 }
 
-fn run4(_w: &[&str], _cx: &mut Cx) -> Option<String> { None }
+
+// ------------------------------------------------------------------------------------------
+// DOM (C17)
+
+fn run4(w: &[&str], cx: &mut Cx) -> Option<String> {
+    match w[1] {
+        "dom" => op_dom(w, cx),
+        "json" => op_json(w, cx),
+        "wtape" | "wcalls" => op_writer(w, cx),
+        _ => run5(w, cx),
+    }
+}
+
+use jomini::text::{ObjectReader, ValueReader};
+use jomini::Windows1252Encoding as W1252;
+
+const CHECKPOINTS: [usize; 10] = [0, 1, 255, 256, 257, 32768, 65535, 65536, 65537, 69999];
+
+/// value reader against the abstract value (recursive; containers via read_object / read_array)
+fn dom_value(v: &ValueReader<W1252>, exp: &V, path: &str, budget: &mut usize) -> Result<(), String> {
+    match exp {
+        V::Obj(fs) => { let o = v.read_object().map_err(|e| format!("{}: read_object failed: {}", path, e))?; dom_object(&o, fs, path, budget) }
+        V::Arr(vs) => {
+            let a = v.read_array().map_err(|e| format!("{}: read_array failed: {}", path, e))?;
+            if a.len() != vs.len() { return Err(format!("{}: len() {} expected {}", path, a.len(), vs.len())); }
+            if a.is_empty() != vs.is_empty() { return Err(format!("{}: is_empty() {}", path, a.is_empty())); }
+            let mut it = a.values();
+            for (k, e) in vs.iter().enumerate() {
+                if CHECKPOINTS.contains(&k) || k + 1 == vs.len() {
+                    let h = it.size_hint();
+                    if h != (vs.len() - k, Some(vs.len() - k)) { return Err(format!("{}: after consuming {} of {} elements size_hint is {:?}", path, k, vs.len(), h)); }
+                }
+                let x = it.next().ok_or_else(|| format!("{}: values() ended after {} of {} elements", path, k, vs.len()))?;
+                dom_value(&x, e, &format!("{}[{}]", path, k), budget)?;
+            }
+            if it.next().is_some() { return Err(format!("{}: values() yields more than len() = {} elements", path, vs.len())); }
+            if it.size_hint() != (0, Some(0)) { return Err(format!("{}: exhausted iterator has size_hint {:?}", path, it.size_hint())); }
+            Ok(())
+        }
+        leaf => {
+            let (b, _) = leaf_text(leaf).unwrap();
+            let s = v.read_scalar().map_err(|e| format!("{}: read_scalar failed: {}", path, e))?;
+            if s.as_bytes() != &b[..] { return Err(format!("{}: scalar {} expected {}", path, clip(s.as_bytes()), clip(&b))); }
+            Ok(())
+        }
+    }
+}
+fn dom_object(o: &ObjectReader<W1252>, fs: &[(K, V)], path: &str, budget: &mut usize) -> Result<(), String> {
+    let n = fs.len();
+    if o.fields_len() != n { return Err(format!("{}: fields_len() {} expected {}", path, o.fields_len(), n)); }
+    let mut it = o.fields();
+    for (k, (ek, ev)) in fs.iter().enumerate() {
+        if CHECKPOINTS.contains(&k) || k + 1 == n {
+            let h = it.size_hint();
+            if h.0 != n - k || h.1.map(|u| u < n - k).unwrap_or(false) { return Err(format!("{}: after consuming {} of {} fields size_hint is {:?}", path, k, n, h)); }
+        }
+        let (key, op, val) = it.next().ok_or_else(|| format!("{}: fields() ended after {} of {} fields", path, k, n))?;
+        let (kb, _) = k_text(ek);
+        if key.read_scalar().as_bytes() != &kb[..] { return Err(format!("{}: field {} key {} expected {}", path, k, clip(key.read_scalar().as_bytes()), clip(&kb))); }
+        if op.is_some() { return Err(format!("{}: field {} carries operator {:?}", path, k, op)); }
+        if *budget > 0 { *budget -= 1; dom_value(&val, ev, &format!("{}.{}", path, String::from_utf8_lossy(&kb[..kb.len().min(12)])), budget)?; }
+    }
+    if it.next().is_some() { return Err(format!("{}: fields() yields more than fields_len() = {}", path, n)); }
+    if it.remainder().len() != 0 { return Err(format!("{}: remainder of a plain object has {} elements", path, it.remainder().len())); }
+    // groups: distinct keys in order of first appearance, members in document order
+    let mut order: Vec<Vec<u8>> = vec![];
+    let mut members: HashMap<Vec<u8>, Vec<usize>> = HashMap::new();
+    for (i, (k, _)) in fs.iter().enumerate() { let kb = k_text(k).0; let e = members.entry(kb.clone()).or_default(); if e.is_empty() { order.push(kb); } e.push(i); }
+    let mut groups = o.field_groups();
+    let h = groups.size_hint();
+    if h.0 > order.len() || h.1.map(|u| u < order.len()).unwrap_or(false) { return Err(format!("{}: field_groups().size_hint() {:?} but there are {} distinct keys", path, h, order.len())); }
+    for (gi, kb) in order.iter().enumerate() {
+        let (key, g) = groups.next().ok_or_else(|| format!("{}: field_groups() ended after {} of {} groups", path, gi, order.len()))?;
+        if key.read_scalar().as_bytes() != &kb[..] { return Err(format!("{}: group {} has key {} expected {}", path, gi, clip(key.read_scalar().as_bytes()), clip(kb))); }
+        let mem = &members[kb];
+        if g.len() != mem.len() { return Err(format!("{}: group {} ({}) has len() {} expected {}", path, gi, clip(kb), g.len(), mem.len())); }
+        let mut n_seen = 0;
+        for (j, (op, val)) in g.values().enumerate() {
+            let fi = *mem.get(j).ok_or_else(|| format!("{}: group {} yields more than {} values", path, gi, mem.len()))?;
+            if op.is_some() { return Err(format!("{}: group {} value {} carries an operator", path, gi, j)); }
+            // identity of the member: compare leaf values / container sizes
+            match &fs[fi].1 {
+                V::Obj(x) => { let got = val.read_object().map(|o| o.fields_len()).map_err(|e| e.to_string())?; if got != x.len() { return Err(format!("{}: group {} value {}: object of {} fields expected {}", path, gi, j, got, x.len())); } }
+                V::Arr(x) => { let got = val.read_array().map(|a| a.len()).map_err(|e| e.to_string())?; if got != x.len() { return Err(format!("{}: group {} value {}: array of {} elements expected {}", path, gi, j, got, x.len())); } }
+                leaf => { let b = leaf_text(leaf).unwrap().0; let s = val.read_scalar().map_err(|e| e.to_string())?; if s.as_bytes() != &b[..] { return Err(format!("{}: group {} ({}) value {} is {} expected {} (order inside the group)", path, gi, clip(kb), j, clip(s.as_bytes()), clip(&b))); } }
+            }
+            n_seen += 1;
+        }
+        if n_seen != mem.len() { return Err(format!("{}: group {} yields {} values, len() says {}", path, gi, n_seen, mem.len())); }
+    }
+    if groups.next().is_some() { return Err(format!("{}: field_groups() yields more than {} groups", path, order.len())); }
+    Ok(())
+}
+
+/// x-scale dom <shape> <n> [<m>]
+fn op_dom(w: &[&str], cx: &mut Cx) -> Option<String> {
+    let (n, m) = (num(w.get(3)?)?, w.get(4).and_then(|s| num(s)).unwrap_or(0));
+    let doc = build(w[2], n, m)?;
+    for layout in [0usize, 2] {
+        let (d, _) = render_text(&doc, layout);
+        let tape = match TextTape::from_slice(&d) { Ok(t) => t, Err(e) => { cx.bad("scale-tape-mismatch", format!("dom {} n={} layout {}: rejected: {}", w[2], n, layout, e)); continue; } };
+        let root = tape.windows1252_reader();
+        if root.tokens_len() != tape.tokens().len() { cx.bad("scale-dom", format!("dom {} n={}: root tokens_len() {} tape has {}", w[2], n, root.tokens_len(), tape.tokens().len())); }
+        let mut budget = usize::MAX;
+        if let Err(e) = dom_object(&root, &doc.fields, "root", &mut budget) { cx.bad("scale-dom", format!("dom {} n={} m={} layout {}: {}", w[2], n, m, layout, e)); }
+        let root8 = tape.utf8_reader();
+        if root8.fields_len() != doc.fields.len() || root8.fields().count() != doc.fields.len() || root8.field_groups().count() != root.field_groups().count() {
+            cx.bad("scale-dom", format!("dom {} n={} layout {}: utf8 reader disagrees on the counts", w[2], n, layout));
+        }
+    }
+    Some(format!("ok fields={}", doc.fields.len()))
+}
+
+// ------------------------------------------------------------------------------------------
+// JSON (C16)
+
+use jomini::json::{DuplicateKeyMode, JsonOptions, TypeNarrowing};
+
+#[derive(Debug, PartialEq, Clone)]
+enum J { Null, Bool(bool), Int(i64), Float(u64), Str(String), Arr(Vec<J>), Obj(Vec<(String, J)>) }
+impl<'de> Deserialize<'de> for J {
+    fn deserialize<D: serde::Deserializer<'de>>(d: D) -> Result<J, D::Error> {
+        struct Vis;
+        impl<'de> Visitor<'de> for Vis {
+            type Value = J;
+            fn expecting(&self, f: &mut std::fmt::Formatter) -> std::fmt::Result { f.write_str("json") }
+            fn visit_unit<E>(self) -> Result<J, E> { Ok(J::Null) }
+            fn visit_bool<E>(self, v: bool) -> Result<J, E> { Ok(J::Bool(v)) }
+            fn visit_i64<E>(self, v: i64) -> Result<J, E> { Ok(J::Int(v)) }
+            fn visit_u64<E>(self, v: u64) -> Result<J, E> { Ok(if v <= i64::MAX as u64 { J::Int(v as i64) } else { J::Float((v as f64).to_bits()) }) }
+            fn visit_f64<E>(self, v: f64) -> Result<J, E> { Ok(J::Float(v.to_bits())) }
+            fn visit_str<E>(self, v: &str) -> Result<J, E> { Ok(J::Str(v.to_string())) }
+            fn visit_seq<A: SeqAccess<'de>>(self, mut s: A) -> Result<J, A::Error> { let mut v = vec![]; while let Some(x) = s.next_element::<J>()? { v.push(x); } Ok(J::Arr(v)) }
+            fn visit_map<A: MapAccess<'de>>(self, mut m: A) -> Result<J, A::Error> { let mut v = vec![]; while let Some(k) = m.next_key::<String>()? { v.push((k, m.next_value::<J>()?)); } Ok(J::Obj(v)) }
+        }
+        d.deserialize_any(Vis)
+    }
+}
+fn parse_json(b: &[u8]) -> Result<J, String> {
+    let mut de = serde_json::Deserializer::from_slice(b);
+    de.disable_recursion_limit();
+    let v = J::deserialize(&mut de).map_err(|e| e.to_string())?;
+    de.end().map_err(|e| e.to_string())?;
+    Ok(v)
+}
+/// expected JSON of a leaf under TypeNarrowing::All (the shapes use no quoted numbers / booleans)
+fn j_leaf(v: &V) -> J {
+    match v {
+        V::I(i) => J::Int(*i as i64), V::U32(u) => J::Int(*u as i64), V::B(b) => J::Bool(*b),
+        V::F(r) => J::Float((format!("{}.{:03}", r / 1000, r % 1000).parse::<f64>().unwrap()).to_bits()),
+        V::U(b) | V::Q(b) => J::Str(String::from_utf8_lossy(&b.iter().copied().filter(|c| *c != b'\\').collect::<Vec<u8>>()).into_owned()),
+        _ => unreachable!(),
+    }
+}
+fn j_val(v: &V, mode: u8) -> J {
+    match v {
+        V::Obj(fs) => j_obj(fs, mode),
+        V::Arr(vs) => { let items = J::Arr(vs.iter().map(|x| j_val(x, mode)).collect()); if mode == b'k' { J::Obj(vec![("type".into(), J::Str("array".into())), ("val".into(), items)]) } else { items } }
+        leaf => j_leaf(leaf),
+    }
+}
+fn j_obj(fs: &[(K, V)], mode: u8) -> J {
+    let key = |k: &K| String::from_utf8_lossy(&k_text(k).0).into_owned();
+    match mode {
+        b'p' => J::Obj(fs.iter().map(|(k, v)| (key(k), j_val(v, mode))).collect()),
+        b'k' => J::Obj(vec![("type".into(), J::Str("obj".into())), ("val".into(), J::Arr(fs.iter().map(|(k, v)| J::Arr(vec![J::Str(key(k)), j_val(v, mode)])).collect()))]),
+        _ => {
+            let mut order: Vec<String> = vec![];
+            let mut groups: HashMap<String, Vec<J>> = HashMap::new();
+            for (k, v) in fs { let ks = key(k); let e = groups.entry(ks.clone()).or_default(); if e.is_empty() { order.push(ks); } e.push(j_val(v, mode)); }
+            J::Obj(order.into_iter().map(|k| { let mut g = groups.remove(&k).unwrap(); let v = if g.len() == 1 { g.pop().unwrap() } else { J::Arr(g) }; (k, v) }).collect())
+        }
+    }
+}
+fn j_diff(a: &J, e: &J, path: &str) -> Option<String> {
+    match (a, e) {
+        (J::Arr(x), J::Arr(y)) => { if x.len() != y.len() { return Some(format!("{}: array of {} elements expected {}", path, x.len(), y.len())); } x.iter().zip(y).enumerate().find_map(|(i, (p, q))| j_diff(p, q, &format!("{}[{}]", path, i))) }
+        (J::Obj(x), J::Obj(y)) => {
+            if x.len() != y.len() { return Some(format!("{}: object of {} members expected {}", path, x.len(), y.len())); }
+            x.iter().zip(y).enumerate().find_map(|(i, ((ka, va), (ke, ve)))| if ka != ke { Some(format!("{}: member {} has key {:?} expected {:?}", path, i, ka, ke)) } else { j_diff(va, ve, &format!("{}.{}", path, &ka[..ka.len().min(12)])) })
+        }
+        (J::Float(x), J::Float(y)) => if x == y { None } else { Some(format!("{}: float {} expected {}", path, f64::from_bits(*x), f64::from_bits(*y))) },
+        (J::Int(x), J::Float(y)) | (J::Float(y), J::Int(x)) => if (*x as f64).to_bits() == *y { None } else { Some(format!("{}: number {} vs {}", path, x, f64::from_bits(*y))) },
+        _ => if a == e { None } else { Some(format!("{}: observed {} expected {}", path, short(a), short(e))) },
+    }
+}
+
+/// x-scale json <shape> <n> [<m>]: the three duplicate-key modes x minified / pretty parse with serde_json to the expected value
+fn op_json(w: &[&str], cx: &mut Cx) -> Option<String> {
+    let (n, m) = (num(w.get(3)?)?, w.get(4).and_then(|s| num(s)).unwrap_or(0));
+    let doc = build(w[2], n, m)?;
+    let (d, _) = render_text(&doc, 0);
+    let tape = match TextTape::from_slice(&d) { Ok(t) => t, Err(e) => { cx.bad("scale-tape-mismatch", format!("json {} n={}: rejected: {}", w[2], n, e)); return Some("err".into()); } };
+    let mut bytes = 0;
+    for (mode, dk) in [(b'g', DuplicateKeyMode::Group), (b'p', DuplicateKeyMode::Preserve), (b'k', DuplicateKeyMode::KeyValuePairs)] {
+        let exp = j_obj(&doc.fields, mode);
+        for pretty in [false, true] {
+            let opts = JsonOptions::new().with_prettyprint(pretty).with_duplicate_keys(dk).with_type_narrowing(TypeNarrowing::All);
+            let what = format!("json {} n={} m={} mode {} pretty {}", w[2], n, m, mode as char, pretty);
+            let out = tape.windows1252_reader().json().with_options(opts).to_vec();
+            bytes += out.len();
+            if std::str::from_utf8(&out).is_err() { cx.bad("scale-json", format!("{}: output is not UTF-8", what)); continue; }
+            match parse_json(&out) {
+                Err(e) => cx.bad("scale-json", format!("{}: serde_json rejects the {} bytes of output: {}", what, out.len(), e)),
+                Ok(j) => if let Some(dif) = j_diff(&j, &exp, "$") { cx.bad("scale-json", format!("{}: {}", what, dif)); },
+            }
+            let s = tape.utf8_reader().json().with_options(opts).to_string();
+            if s.as_bytes() != &out[..] { cx.bad("scale-json", format!("{}: to_string() of the utf8 reader differs from to_vec() of the windows1252 reader ({} vs {} bytes)", what, s.len(), out.len())); }
+        }
+    }
+    Some(format!("ok bytes={}", bytes))
+}
+
+// ------------------------------------------------------------------------------------------
+// writer (C14, C15)
+
+/// indent of every line == (open braces before the line, minus one when the line starts with '}') * factor bytes of `ch`
+fn check_indent(out: &[u8], ch: u8, factor: usize) -> Result<usize, String> {
+    let mut depth = 0usize;
+    let mut lines = 0;
+    let mut i = 0;
+    while i < out.len() {
+        // at the start of a line
+        let mut j = i;
+        while j < out.len() && out[j] == ch { j += 1; }
+        let closing = out.get(j) == Some(&b'}');
+        let expect = (depth - closing as usize) * factor;
+        if j - i != expect { return Err(format!("line {} (byte {}): indent of {} x {:?}, expected depth {} x factor {} = {}", lines, i, j - i, ch as char, depth - closing as usize, factor, expect)); }
+        if matches!(out.get(j), Some(b' ') | Some(b'\t')) { return Err(format!("line {} (byte {}): indent continues with a different blank byte", lines, i)); }
+        // scan the line, tracking braces outside quotes
+        let mut k = j;
+        while k < out.len() && out[k] != b'\n' {
+            match out[k] {
+                b'"' => { k += 1; while k < out.len() && out[k] != b'"' { if out[k] == b'\\' { k += 1; } k += 1; } }
+                b'{' => depth += 1,
+                b'}' => { if depth == 0 { return Err(format!("line {}: unbalanced '}}'", lines)); } depth -= 1; }
+                _ => {}
+            }
+            k += 1;
+        }
+        lines += 1;
+        i = k + 1;
+    }
+    if depth != 0 { return Err(format!("{} containers left open at the end of the output", depth)); }
+    Ok(lines)
+}
+fn esc_ref(raw: &[u8]) -> Vec<u8> {
+    let mut v = Vec::with_capacity(raw.len() + 16);
+    for &c in raw { if c == b'\\' || c == b'"' { v.push(b'\\'); } v.push(c); }
+    v
+}
+type TW = jomini::TextWriter<Vec<u8>>;
+fn wr_key(wr: &mut TW, k: &K) -> Result<(), jomini::Error> {
+    match k { K::U(b) => wr.write_unquoted(b), K::Q(b) => wr.write_quoted(b), K::Tok(t) => wr.write_unquoted(tok_name(*t).as_bytes()), K::I(i) => wr.write_i32(*i) }
+}
+/// drive the writer from the abstract value; `typed` = object / array starts, otherwise write_start for every container
+fn wr_val(wr: &mut TW, v: &V, typed: bool, depth: usize, err: &mut Option<String>) -> Result<(), jomini::Error> {
+    match v {
+        V::U(b) => wr.write_unquoted(b), V::Q(b) => wr.write_quoted(b), V::I(i) => wr.write_i32(*i), V::U32(u) => wr.write_u32(*u), V::B(b) => wr.write_bool(*b),
+        V::F(r) => wr.write_unquoted(format!("{}.{:03}", r / 1000, r % 1000).as_bytes()),
+        V::Obj(fs) => {
+            if typed { wr.write_object_start()?; } else { wr.write_start()?; }
+            if wr.depth() != depth + 1 && err.is_none() { *err = Some(format!("depth() {} after opening a container at depth {}", wr.depth(), depth)); }
+            for (k, v) in fs {
+                if typed && !wr.expecting_key() && err.is_none() { *err = Some(format!("expecting_key() false before a key at depth {}", depth + 1)); }
+                wr_key(wr, k)?;
+                if !typed { wr.write_operator(Operator::Equal)?; }
+                wr_val(wr, v, typed, depth + 1, err)?;
+            }
+            wr.write_end()?;
+            if wr.depth() != depth && err.is_none() { *err = Some(format!("depth() {} after closing back to depth {}", wr.depth(), depth)); }
+            Ok(())
+        }
+        V::Arr(vs) => {
+            if typed { wr.write_array_start()?; } else { wr.write_start()?; }
+            if wr.depth() != depth + 1 && err.is_none() { *err = Some(format!("depth() {} after opening a container at depth {}", wr.depth(), depth)); }
+            for v in vs { wr_val(wr, v, typed, depth + 1, err)?; }
+            wr.write_end()?;
+            if wr.depth() != depth && err.is_none() { *err = Some(format!("depth() {} after closing back to depth {}", wr.depth(), depth)); }
+            Ok(())
+        }
+    }
+}
+/// what the calls describe: quoted payloads appear escaped on the tape
+fn escaped_doc(v: &V) -> V {
+    match v { V::Q(b) => V::Q(esc_ref(b)), V::Obj(fs) => V::Obj(fs.iter().map(|(k, v)| (match k { K::Q(b) => K::Q(esc_ref(b)), o => o.clone() }, escaped_doc(v))).collect()), V::Arr(vs) => V::Arr(vs.iter().map(escaped_doc).collect()), o => o.clone() }
+}
+
+/// x-scale wtape|wcalls <shape> <n> <indent char: s|t> <factor> [<m>]
+fn op_writer(w: &[&str], cx: &mut Cx) -> Option<String> {
+    let n = num(w.get(3)?)?;
+    let ch = match *w.get(4)? { "s" => b' ', "t" => b'\t', _ => return None };
+    let factor = num(w.get(5)?)?;
+    let m = w.get(6).and_then(|s| num(s)).unwrap_or(0);
+    let mut doc = build(w[2], n, m)?;
+    let what = format!("{} {} n={} m={} indent {:?} x {}", w[1], w[2], n, m, ch as char, factor);
+    let mk = || TextWriterBuilder::new().indent_char(ch).indent_factor(factor as u8).from_writer(Vec::new());
+    let out = if w[1] == "wtape" {
+        let (d, _) = render_text(&doc, 0);
+        let tape = TextTape::from_slice(&d).ok()?;
+        let mut wr = mk();
+        if let Err(e) = wr.write_tape(&tape) { cx.bad("scale-writer", format!("{}: write_tape failed: {}", what, e)); return Some("err".into()); }
+        wr.into_inner()
+    } else {
+        // raw payloads with quotes and backslashes go through write_quoted's escaping
+        if w[2] == "long-qe" || w[2] == "long-in" { /* payload_esc already holds `\"`: written raw it gains one more level */ }
+        let mut wr = mk();
+        let mut err = None;
+        for typed in [true] {
+            for (k, v) in &doc.fields {
+                if let Err(e) = wr_key(&mut wr, k).and_then(|_| wr_val(&mut wr, v, typed, 0, &mut err)) { cx.bad("scale-writer", format!("{}: writer call failed: {}", what, e)); return Some("err".into()); }
+            }
+        }
+        if let Some(e) = err { cx.bad("scale-writer-depth", format!("{}: {}", what, e)); }
+        if wr.depth() != 0 { cx.bad("scale-writer-depth", format!("{}: depth() {} after the last call", what, wr.depth())); }
+        doc = Doc { fields: doc.fields.iter().map(|(k, v)| (match k { K::Q(b) => K::Q(esc_ref(b)), o => o.clone() }, escaped_doc(v))).collect(), gap: vec![] };
+        wr.into_inner()
+    };
+    let exp = text_tape_exp(&doc);
+    match TextTape::from_slice(&out) {
+        Ok(t) => if let Err(e) = cmp_text_tape(t.tokens(), &exp) { cx.bad("scale-writer-roundtrip", format!("{}: the {} bytes of output parse to a different tape: {}", what, out.len(), e)); },
+        Err(e) => cx.bad("scale-writer-roundtrip", format!("{}: the {} bytes of output do not parse: {}", what, out.len(), e)),
+    }
+    let lines = match check_indent(&out, ch, factor) { Ok(l) => l, Err(e) => { cx.bad("scale-writer-indent", format!("{}: {}", what, e)); 0 } };
+    // idempotence: write(parse(out)) == out
+    if let Ok(t) = TextTape::from_slice(&out) {
+        let mut wr = mk();
+        if wr.write_tape(&t).is_ok() {
+            let out2 = wr.into_inner();
+            if out2 != out { let p = out.iter().zip(out2.iter()).position(|(a, b)| a != b).unwrap_or(out.len().min(out2.len())); cx.bad("scale-writer-roundtrip", format!("{}: writing the re-parsed output is not a fixed point: first difference at byte {} ({} vs {} bytes)", what, p, out.len(), out2.len())); }
+        }
+    }
+    // the untyped entry (write_start for every container) gives the same tape
+    if w[1] == "wcalls" {
+        let mut wr = mk();
+        let mut err = None;
+        let src = build(w[2], n, m)?;
+        let mut failed = false;
+        for (k, v) in &src.fields { if wr_key(&mut wr, k).and_then(|_| wr.write_operator(Operator::Equal)).and_then(|_| wr_val(&mut wr, v, false, 0, &mut err)).is_err() { failed = true; break; } }
+        if failed { cx.bad("scale-writer", format!("{}: a write_start-based call sequence failed", what)); }
+        else {
+            let out3 = wr.into_inner();
+            match TextTape::from_slice(&out3) {
+                Ok(t) => if let Err(e) = cmp_text_tape(t.tokens(), &exp) { cx.bad("scale-writer-roundtrip", format!("{} (write_start for every container): output parses to a different tape: {}", what, e)); },
+                Err(e) => cx.bad("scale-writer-roundtrip", format!("{} (write_start for every container): output does not parse: {}", what, e)),
+            }
+            if let Err(e) = check_indent(&out3, ch, factor) { cx.bad("scale-writer-indent", format!("{} (write_start for every container): {}", what, e)); }
+            if let Some(e) = err { cx.bad("scale-writer-depth", format!("{} (write_start for every container): {}", what, e)); }
+        }
+    }
+    Some(format!("ok bytes={} lines={}", out.len(), lines))
+}
+
+fn run5(_w: &[&str], _cx: &mut Cx) -> Option<String> { None }
